@@ -7,6 +7,11 @@ TB = ('Coq 8.16.1 kernel (coqc, full .vo builds, vm_compute; no native_compute);
       'the correspondence harness (g++ 12 -O1, ASan+UBSan+float-cast-overflow, exact-size heap buffers) and its generators; the hand-written model is tied to /repo/src by that correspondence, '
       'which is differential testing. ')
 CLAIMED = {
+ 'C20': dict(text='Refinement theorems, for every operation sequence, every size up to 65535 and every priority count: the model of tRingBuffer answers exactly like a FIFO of capacity size-1 and the model of '
+                  'tPriorityRingBuffer exactly like the span list machine (per-priority order, lowest priority first, refusal at span = size-1, holes not compacted); the span machine is shown to keep a live head and '
+                  'per-priority FIFO order.  Model, extracted specification and C++ are compared per operation on exhaustive small scopes and long random sequences every run.',
+             note=TB + 'Modelled, not verified: RingBuffer.tpp itself (values are uint32_t in the harness; memcpy of T is modelled as value copy).',
+             design='6 C20', technique='Coq refinement proof (ring -> list machine) + extracted-model/implementation correspondence'),
  'C19': dict(text='Theorems for all strings / all messages about a hand-written Gallina model of Seasmart.cpp (import never reads past the terminator, export size rule, import(export m)=m, import soundness), '
                   'model tied to the current source by running extracted model and sanitizer build on the same generated cases every run.',
              note=TB + 'Modelled, not verified: the C++ itself (LP64, strtol/isxdigit/strncmp semantics as modelled in Model/SeasmartDefs.v).',
